@@ -3,3 +3,5 @@ import UmapModel.Knn
 import UmapModel.Graph
 import UmapModel.Relations
 import UmapModel.Api
+import UmapModel.Rng
+import UmapModel.Sgd
